@@ -12,8 +12,8 @@ RULE = ('two real J1939-22 stacks; a generated sequence of 1..12 send_pgn calls 
         'time_limit in {0, 1..200 ms}, FEFF end to end and FBFF decoded on the bus by the reference codec only, issued from the application context or '
         'from a timer callback at instants drawn over the job thread\'s sleep; every frame on the bus is decoded independently and matched against the '
         'submissions. non-trivial = at least one group was sent with a time limit (buffered); distinct = distinct scenario JSON')
-FAULT_COUNTERS = {'send_pgn from inside the stack\'s own transmission (submission while the job thread flushes)': 'nested_submissions', 'send_pgn issued from a timer callback (job-thread context)': 'timer_ctx_groups', 'buffer-full flushes': 'full_buffer_flushes'}
-REQUIRED_PROBES = ['groups', 'buffered_groups', 'combined_frames', 'fbff_groups', 'timer_ctx_groups', 'full_buffer_flushes']
+FAULT_COUNTERS = {'send_pgn while the job thread is parked at a source line of its pass (pre-emption)': 'preempted_submissions', 'send_pgn from inside the stack\'s own transmission (submission while the job thread flushes)': 'nested_submissions', 'send_pgn issued from a timer callback (job-thread context)': 'timer_ctx_groups', 'buffer-full flushes': 'full_buffer_flushes'}
+REQUIRED_PROBES = ['groups', 'buffered_groups', 'combined_frames', 'fbff_groups', 'timer_ctx_groups', 'full_buffer_flushes', 'preempted_submissions']
 FEFF, FBFF = 3, 2
 
 
@@ -52,11 +52,57 @@ def generate(rng, tier, i):
         for c in rng.sample(calls[1:], min(len(calls) - 1, rng.randint(1, 2))):
             c['on_tx'] = rng.choice([0, 0, 1, 1, 2, 3])
             c['ctx'] = 'app'
+    # pre-emption: the job thread is parked at its k-th source line (counted while a buffered group is waiting) and an
+    # application thread submits a group for the same buffer exactly then
+    scn['reuse_lists'] = rng.random() < 0.5
+    buffered = [c for c in calls if c['tl_ms'] > 0 and c.get('on_tx') is None]
+    if buffered and rng.random() < 0.2:
+        src = rng.choice(buffered)
+        c = dict(copy.deepcopy(src), fill=rng.randrange(1 << 16), len=rng.choice([1, 8, src['len']]), tl_ms=rng.choice([5, 50, 200]), ctx='app',
+                 on_line=rng.randint(1, 45), hold_us=rng.choice([1, 50, 500]))
+        c.pop('on_tx', None)
+        calls.append(c)
     return scn
 
 
+class LineTrigger:
+    """Trace function for the job thread of stack S: at the k-th line event inside j1939_22.py that is executed while `cond()`
+    holds, run `fire()` (scheduler context, at once) and park the thread for hold_ns."""
+
+    def __init__(self, sim):
+        self.sim = sim
+        self.targets = {}       # k -> (hold_ns, fire)
+        self.cond = lambda: False
+        self.n = 0
+        self.fired = 0
+        self.windows = []       # (from, to) the job thread was held
+
+    def global_trace(self, frame, event, arg):
+        if event == 'call' and self.targets and frame.f_code.co_filename.endswith('j1939_22.py'):
+            return self.local_trace
+        return None
+
+    def local_trace(self, frame, event, arg):
+        if event == 'line' and self.targets and self.cond():
+            self.n += 1
+            t = self.targets.pop(self.n, None)
+            if t is not None:
+                self.fired += 1
+                self.windows.append((self.sim.now, self.sim.now + t[0]))
+                self.sim.log('preempt', frame.f_lineno, self.n, t[0])
+                self.sim.after(0, t[1], 'op')
+                self.sim.preempt(t[0])
+        return self.local_trace
+
+
 def execute(scn, keep_log=False, hook=None):
-    w = World(scn, keep_log=keep_log)
+    trig = {}
+
+    def factory(sim):
+        if any(c.get('on_line') for c in scn['calls']):
+            trig['S'] = LineTrigger(sim)
+        return trig
+    w = World(scn, keep_log=keep_log, tracer_factory=factory)
     import sys
     FrameFormat = sys.modules['j1939.message_id'].FrameFormat      # (constants only; loaded from VERIF_REPO by World)
     assert FrameFormat.FEFF == FEFF and FrameFormat.FBFF == FBFF
@@ -64,7 +110,7 @@ def execute(scn, keep_log=False, hook=None):
     S = w.stacks['S']
     viol = []
     stats = {'groups': 0, 'buffered_groups': 0, 'combined_frames': 0, 'fbff_groups': 0, 'timer_ctx_groups': 0, 'full_buffer_flushes': 0,
-             'mpg_frames': 0, 'nested_submissions': 0}
+             'mpg_frames': 0, 'nested_submissions': 0, 'preempted_submissions': 0}
     t0 = sim.now
     sim.run_for(0.02)
     pending = []        # submissions not yet seen on the bus
@@ -102,6 +148,7 @@ def execute(scn, keep_log=False, hook=None):
             stats['combined_frames'] += 1
         if not groups:
             viol.append({'clause': 'empty-frame', 'rank': 2, 'msg': 'multi-PG frame without any group'})
+        matched = []
         for (tos, tf, cpgn, pl) in groups:
             if tos != 2 or tf != 0:
                 viol.append({'clause': 'group-header', 'rank': 1, 'msg': 'C-PG header TOS %d TF %d' % (tos, tf)})
@@ -121,9 +168,13 @@ def execute(scn, keep_log=False, hook=None):
             pending.remove(hit)
             hit['t_bus'] = fr.t
             done.append(hit)
+            matched.append(hit)
             if (hit['sa'], hit['da'], hit['ff']) != (sa, da, ff):
                 viol.append({'clause': 'mixed-frame', 'rank': 1,
                              'msg': 'group submitted for sa %d da %d format %d travelled in a frame sa %d da %d format %d' % (hit['sa'], hit['da'], hit['ff'], sa, da, ff)})
+        # probe: a buffer flushed well before the earliest time limit of its groups (a later group did not fit any more)
+        if matched and all(h['tl'] > 0 for h in matched) and min(h['t_sub'] + h['tl'] for h in matched) - fr.t > 1_000_000:
+            stats['full_buffer_flushes'] += 1
     bus.observers.append(observe)
 
     def submit(c):
@@ -138,7 +189,11 @@ def execute(scn, keep_log=False, hook=None):
         stats['buffered_groups'] += int(c['tl_ms'] > 0)
         stats['fbff_groups'] += int(c['ff'] == FBFF)
         stats['timer_ctx_groups'] += int(c['ctx'] == 'timer')
-        ok = ca.send_pgn(c['dp'], c['pf'], c['ps'], c['prio'], list(data), time_limit=c['tl_ms'] / 1000.0, frame_format=c['ff'])
+        buf = list(data)
+        ok = ca.send_pgn(c['dp'], c['pf'], c['ps'], c['prio'], buf, time_limit=c['tl_ms'] / 1000.0, frame_format=c['ff'])
+        if scn.get('reuse_lists'):
+            # the application refills its scratch list for the next signal as soon as send_pgn has returned
+            buf[:] = [0xEE] * (len(buf) + 1)
         if ok is not True:
             viol.append({'clause': 'send-refused', 'rank': 2, 'msg': 'send_pgn returned %r' % (ok,)})
             pending.remove(rec)
@@ -169,8 +224,20 @@ def execute(scn, keep_log=False, hook=None):
                 finally:
                     nest[0] -= 1
     bus.post_hooks.append(on_tx)
+    lt = trig.get('S')
+    late = []
+    if lt is not None:
+        lt.cond = lambda: any(x['tl'] > 0 for x in pending)
+        for c in scn['calls']:
+            if c.get('on_line'):
+                def fire(c=c):
+                    if c not in late:
+                        late.append(c)
+                        stats['preempted_submissions'] += 1
+                        submit(c)
+                lt.targets[c['on_line']] = (c['hold_us'] * 1000, fire)
     for c in scn['calls']:
-        if c.get('on_tx') is not None:
+        if c.get('on_tx') is not None or c.get('on_line'):
             continue
         if c['ctx'] == 'timer':
             def arm(c=c):
@@ -178,7 +245,17 @@ def execute(scn, keep_log=False, hook=None):
             sim.at(base + c['at_us'] * 1000, arm, 'op')
         else:
             sim.at(base + c['at_us'] * 1000, (lambda c=c: submit(c)), 'op')
-    end = base + (scn['calls'][-1]['at_us'] if scn['calls'] else 0) * 1000
+    end = base + max([c['at_us'] for c in scn['calls']] + [0]) * 1000
+    if lt is not None:
+        # a pre-emption point that was never reached: the group is submitted after the last scheduled call instead
+        def flush_unfired():
+            lt.targets.clear()
+            for c in scn['calls']:
+                if c.get('on_line') and c not in late:
+                    late.append(c)
+                    submit(c)
+        sim.at(end + 250_000_000, flush_unfired, 'op')
+        end += 250_000_000
     sim.run_until(end + 6_500_000_000)
     viol += common.thread_violations(w)
     for s in pending:
@@ -187,6 +264,9 @@ def execute(scn, keep_log=False, hook=None):
     worst = None
     for s in done:
         late = s['t_bus'] - s['t_sub'] - s['tl']
+        if lt is not None:
+            # the job thread was held on purpose: that time is scheduling latency of this run
+            late -= sum(b - a for (a, b) in lt.windows if a <= s['t_bus'] and b >= s['t_sub'])
         if late > lmax + eps and (worst is None or late > worst[0]):
             worst = (late, s)
     if worst:
@@ -225,6 +305,12 @@ def shrink(scn):
             x = copy.deepcopy(scn)
             del x['calls'][i]['on_tx']
             yield x
+        if c.get('on_line'):
+            for k in (c['on_line'] - 1, c['on_line'] // 2):
+                if k >= 1 and k != c['on_line']:
+                    x = copy.deepcopy(scn)
+                    x['calls'][i]['on_line'] = k
+                    yield x
         if c['len'] > 1:
             for n in (1, 8):
                 if n < c['len']:
